@@ -237,14 +237,7 @@ def alloc_bounded(ctx, r, b, site, size_op, size_f):
                 ok_guard, why = sub_guarded(ctx, b, bb, a, bo)
                 # callers: end clamped by min(_, item.size); call dominated by start < item.size
                 def end_clamped(cb, csl, a2):
-                    lv2 = csl.leaves_of_operand(a2)
-                    for l in lv2:
-                        if l[0] == "call" and l[1] in ("std::cmp::min", "std::cmp::Ord::min"):
-                            t = cb.blocks[l[2]]["term"]
-                            args_l = [csl.leaves_of_operand(x) for x in t["args"]]
-                            if any(all(y[0] == "param" and y[2] and y[2][-1] == size_f for y in al) and al for al in args_l):
-                                return True
-                    return False
+                    return clamped_to_size(ctx, cb, csl, a2, size_f)
                 ok_end = _callers_pass(ctx, b, end_i, end_clamped)
                 ok_start = _callers_start_below_size(ctx, b, start_i, size_f)
                 r.check(ok_guard and ok_end and ok_start, "alloc:end-minus-start:%s" % b.path.split("::")[-1], b,
@@ -256,6 +249,62 @@ def alloc_bounded(ctx, r, b, site, size_op, size_f):
     r.check(bool(consts), "alloc:%s" % (site.path or "?"), b, "constant-size allocation at %s" % where,
             "allocation at %s has a size of origin %s that is not shown to be bounded by the blob size" % (
                 where, sorted(fmt_leaf(l) for l in lv)), where)
+
+
+def _is_size(lv, size_f):
+    return bool(lv) and all(y[0] == "param" and y[2] and y[2][-1] == size_f for y in lv)
+
+
+def clamped_to_size(ctx, cb, csl, op, size_f):
+    """Accepted idioms for `end` clamped against the stored size:
+       min(end, size) / Ord::min / clamp(_, _, size); or a conditional assignment where every value other
+       than the size itself is assigned under a comparison edge that implies value <= size."""
+    lv = csl.leaves_of_operand(op)
+    for l in lv:
+        if l[0] == "call" and l[1] in ("std::cmp::min", "std::cmp::Ord::min", "std::cmp::Ord::clamp"):
+            t = cb.blocks[l[2]]["term"]
+            if any(_is_size(csl.leaves_of_operand(x), size_f) for x in t["args"]):
+                if len(lv) == 1:
+                    return True
+    # conditional assignment
+    pl = place_of(op)
+    if pl is None or pl["p"]:
+        return False
+    l0 = pl["l"]
+    for _ in range(6):
+        defs = cb.assignments().get(l0, [])
+        if len(defs) == 1 and defs[0][1] != "term" and defs[0][2]["k"] == "use" and place_of(defs[0][2]["op"]) \
+                and not place_of(defs[0][2]["op"])["p"]:
+            l0 = place_of(defs[0][2]["op"])["l"]
+            continue
+        break
+    defs = cb.assignments().get(l0, [])
+    if len(defs) < 2:
+        return False
+    for (dbb, j, rv) in defs:
+        if j == "term" or rv["k"] != "use":
+            return False
+        vl = csl.leaves_of_operand(rv["op"])
+        if _is_size(vl, size_f):
+            continue
+        # value != size: must sit under an edge implying value <= size
+        ok = False
+        for sw in cb.normal_blocks():
+            c = cfgutil.cmp_true_edge(cb, sw)
+            if c is None:
+                continue
+            op_, x, y, t_true, t_false = c
+            lx, ly = csl.leaves_of_operand(x), csl.leaves_of_operand(y)
+            for (edge_t, is_true) in ((t_true, True), (t_false, False)):
+                if edge_t is None or not cfgutil.edge_dominates(cb, (sw, edge_t), dbb):
+                    continue
+                if lx == vl and _is_size(ly, size_f) and implies_ge(op_, False, is_true):
+                    ok = True        # size >= value
+                if ly == vl and _is_size(lx, size_f) and implies_ge(op_, True, is_true):
+                    ok = True
+        if not ok:
+            return False
+    return True
 
 
 def _callers_pass(ctx, b, param_i, pred):
@@ -344,7 +393,6 @@ def reject_polarity(ctx, r, rsites, size_f):
         for (cs, how) in prog.callers_index().get(b.path, []):
             cb = cs.body
             csl = Slicer(ctx.world, cb)
-            mins = [s for s in cb.calls() if (s.path or "") in ("std::cmp::min", "std::cmp::Ord::min")]
             empties = []
             for bb in cb.normal_blocks():
                 for s in cb.stmts(bb):
@@ -354,24 +402,27 @@ def reject_polarity(ctx, r, rsites, size_f):
                             empties.append(bb)
             r.check(bool(empties), "empty-arm", cb, "%s has an empty-result arm" % stable_path(cb),
                     "%s has no empty-result arm for start >= size" % stable_path(cb))
-            for m in mins:
-                ok = False
-                for sw in cb.normal_blocks():
-                    c = cfgutil.cmp_true_edge(cb, sw)
-                    if c is None or c[0] not in ("Ge", "Lt"):
-                        continue
-                    op, x, y, t_true, t_false = c
-                    ly = csl.leaves_of_operand(y)
-                    if not (ly and all(z[0] == "param" and z[2] and z[2][-1] == size_f for z in ly)):
-                        continue
+            ok = False
+            for sw in cb.normal_blocks():
+                c = cfgutil.cmp_true_edge(cb, sw)
+                if c is None or c[0] not in ("Ge", "Lt", "Gt", "Le"):
+                    continue
+                op, x, y, t_true, t_false = c
+                lx, ly = csl.leaves_of_operand(x), csl.leaves_of_operand(y)
+                if _is_size(ly, size_f) and op in ("Ge", "Lt"):
                     below = t_false if op == "Ge" else t_true
                     above = t_true if op == "Ge" else t_false
-                    if below is not None and cfgutil.edge_dominates(cb, (sw, below), m.bb) and \
-                            all(cfgutil.edge_dominates(cb, (sw, above), e) for e in empties):
-                        ok = True
-                r.check(ok, "clamp-after-empty-check", cb,
-                        "the clamp at %s happens only when start < size; start >= size returns empty" % site_where(m),
-                        "the clamp at %s is not preceded by the `start >= size` early return" % site_where(m), site_where(m))
+                elif _is_size(lx, size_f) and op in ("Le", "Gt"):
+                    below = t_false if op == "Le" else t_true
+                    above = t_true if op == "Le" else t_false
+                else:
+                    continue
+                if below is not None and cfgutil.edge_dominates(cb, (sw, below), cs.bb) and empties and \
+                        all(cfgutil.edge_dominates(cb, (sw, above), e) for e in empties):
+                    ok = True
+            r.check(ok, "range-read-only-below-size", cb,
+                    "the range read at %s happens only when start < size; start >= size returns the empty result" % site_where(cs),
+                    "the range read at %s is not preceded by the `start >= size` early return" % site_where(cs), site_where(cs))
 
 
 def accumulators(ctx, r, site):
